@@ -384,6 +384,7 @@ C_PRELUDE = r'''#include <stdint.h>
 #include <string.h>
 #include <stdio.h>
 #include <stdlib.h>
+#include <stdarg.h>
 static inline float f32(uint32_t u){float f; memcpy(&f,&u,4); return f;}
 static inline double f64(uint64_t u){double f; memcpy(&f,&u,8); return f;}
 static inline uint32_t b32(float f){uint32_t u; memcpy(&u,&f,4); return u;}
@@ -435,10 +436,12 @@ def go_struct_decl(name, sh):
 class Bundle:
     """one generated program: many cases; files + expectations"""
 
-    def __init__(self, idx, cases, cstr=None, negctl=True):
+    def __init__(self, idx, cases, cstr=None, negctl=True, variadic=None, narrow=None):
         self.idx = idx
         self.cases = cases
         self.cstr = cstr or []
+        self.variadic = variadic or []
+        self.narrow = narrow or []
         self.expect = {}       # (case index, dir) -> [(slot name, value)]
         self.files = {}
         self.cmain = ""
@@ -646,11 +649,30 @@ class Bundle:
         wrap += cstr_c
         gob += cstr_cb
         gom += cstr_go
+        # ---- variadic calls (after the struct cases: a crash here leaves their lines complete)
+        va = gen_variadic(self.variadic, self.expect)
+        hdr += va["hdr"]
+        wrap += va["c"]
+        gob += va["cb"]
+        gom += va["go"]
+        cm += va["cmain"]
+        if self.variadic:
+            calls_go.append("\tvaCases()")
+            calls_c.append("  c09_vcases();")
+        # ---- narrow integers behind an aggregate: a binding package of its own whose C file is compiled with $C09_NFLAGS
+        nw = gen_narrow(self.narrow, self.expect)
+        gom += nw["go"]
+        cm += nw["cmain"]
+        if self.narrow:
+            gom[gom.index('\t"vmod/cb"')] = '\t"vmod/cb"\n\t"vmod/cn"'
+            calls_go.append("\tnwCases()")
+            calls_c.append("  c09_ncases();")
         gom.append("func main() {\n\tfrom := int(cb.From())\n" + ("\tif from == 0 {\n\t\tcstrCases()\n\t}\n" if self.cstr else "") +
                    "\n".join(calls_go) + '\n\tprintln("C09 done")\n}')
         cm.append("int main(void) {\n  int from = c09_from();\n" + "\n".join(calls_c) + '\n  fprintf(stderr, "C09 done\\n");\n  return 0;\n}')
         self.files = {"cb/wrap/shapes.h": "\n".join(hdr) + "\n", "cb/wrap/wrap.c": "\n".join(wrap) + "\n",
                       "cb/cb.go": "\n".join(gob) + "\n", "main.go": "\n".join(gom) + "\n"}
+        self.files.update(nw["files"])
         self.cmain = "\n".join(cm) + "\n"
 
 
@@ -751,9 +773,533 @@ func cstrCases() {
     return go, c, cb
 
 
+# --------------------------------------------------------------------------- variadic calls (SysVVariadic.tla)
+
+VKIND = {"i64": "i", "f64": "f", "ptr": "p"}
+
+
+def run_variadic(chk, thorough):
+    rd = chk.rd.path
+    cfg = os.path.join(rd, "variadic.cfg")
+    C.write_cfg(cfg, constants={"MaxVar": 4 if thorough else 3}, invariants=["ClassSane", "InOrder", "NamedSame", "Emit"])
+    res = C.tlc(SPEC, "SysVVariadic", cfg, rd, timeout=600, workers=2)
+    if not res.ok:
+        raise C.Undecided("SysVVariadic: the va_arg walk does not find the arguments where the caller puts them: %s" % res.violation)
+    chk.add_tlc(res, "SysVVariadic")
+    order = {"none": 0, "small": 1, "mid": 2, "big": 3}
+    seen = {}
+    for r in res.printed:
+        r["psig"] = shape_sig(r["prefix"])
+        r["prefix"]["sig"] = r["psig"]
+        seen[(r["psig"], tuple(r["kinds"]))] = r
+    out = sorted(seen.values(), key=lambda r: (order[r["class"]], r["psig"], len(r["kinds"]), r["kinds"]))
+    if not out or any(r["received"] != list(range(1, len(r["kinds"]) + 1)) for r in out):
+        raise C.Undecided("SysVVariadic printed nothing usable")
+    return out
+
+
+def vname(r):
+    return "%s%s(%s)" % (r["class"], r["psig"] if r["prefix"]["shape"] else "", ",".join(r["kinds"]) or "-")
+
+
+def gen_variadic(vcases, expect):
+    """vcases: TLC records of SysVVariadic; one C callee per prefix shape, `n` carries the case number.
+    lines: 'C09 V<i> va <prefix leaves> <n> <variadic...>' printed by the C callee, 'C09 V<i> vres <result>' by the caller"""
+    out = {"hdr": [], "c": [], "cb": [], "go": [], "cmain": []}
+    if not vcases:
+        return out
+    pidx = {}
+    gofn, cfn = ["func vaCases() {"], ["static void c09_vcases(void) {"]
+    kinds_tbl, res_tbl = [], []
+    for i, r in enumerate(vcases):
+        sh = r["prefix"]
+        has = bool(sh["shape"])
+        lv = leaves(sh) if has else []
+        if r["psig"] not in pidx:
+            k = pidx[r["psig"]] = len(pidx)
+            tn = "VP%d" % k
+            if has:
+                out["hdr"].append(c_struct_decl(tn, sh))
+                out["cb"].append(go_struct_decl(tn, sh))
+            fixed = ("struct %s s, " % tn) if has else ""
+            out["hdr"].append("int64_t va%d(%sint32_t n, ...);" % (k, fixed))
+            c = ["int64_t va%d(%sint32_t n, ...) {" % (k, fixed),
+                 "  unsigned long long v[8]; int m = 0; va_list ap; va_start(ap, n);",
+                 "  const char *kinds = (n >= 0 && n < %d) ? c09_vkinds[n] : \"\";" % len(vcases),
+                 "  for (; kinds[m] && m < 8; m++) {",
+                 "    if (kinds[m] == 'f') v[m] = b64(va_arg(ap, double));",
+                 "    else if (kinds[m] == 'p') v[m] = (unsigned long long)(uintptr_t)va_arg(ap, void*);",
+                 "    else v[m] = (unsigned long long)va_arg(ap, int64_t);",
+                 "  }",
+                 "  va_end(ap);",
+                 '  fprintf(stdout, "C09 V%d va", (int)(n >= 0 && n < %d ? n : %d));' % (len(vcases), len(vcases))]
+            for t, cp, _ in lv:
+                c.append('  fprintf(stdout, " %%llu", %s);' % c_bits("s" + cp, t))
+            c += ['  fprintf(stdout, " %llu", (unsigned long long)(long long)n);',
+                  '  for (int j = 0; j < m; j++) fprintf(stdout, " %llu", v[j]);',
+                  '  fprintf(stdout, "\\n"); fflush(stdout);',
+                  "  return (n >= 0 && n < %d) ? c09_vres[n] : 0;" % len(vcases), "}"]
+            out["c"] += c
+            out["cb"] += ["//go:linkname Va%d C.va%d" % (k, k),
+                          "func Va%d(%sn int32, __llgo_va_list ...any) int64" % (k, ("s %s, " % tn) if has else ""), ""]
+        k = pidx[r["psig"]]
+        tn = "VP%d" % k
+        tag = "variadic:" + vname(r)
+        le = [leaf_value(tag, "l%d" % j, t) for j, (t, _, _) in enumerate(lv)]
+        sent = [leaf_value(tag, "v%d" % j, t) for j, t in enumerate(r["kinds"])]
+        resv = leaf_value(tag, "res", "i64")
+        kinds_tbl.append('"%s"' % "".join(VKIND[t] for t in r["kinds"]))
+        res_tbl.append(c_lit(resv, "i64"))
+        # SysVVariadic.Received: the j-th va_arg yields the Received[j]-th argument supplied
+        expect[("V%d" % i, "va")] = ([("s%s:%s" % (lv[j][1], lv[j][0]), le[j]) for j in range(len(lv))] + [("n:i32", i)] +
+                                      [("va_arg %d:%s" % (j + 1, r["kinds"][j]), sent[r["received"][j] - 1]) for j in range(len(sent))])
+        expect[("V%d" % i, "vres")] = [("result:i64", resv)]
+        g = ["\t{"]
+        cc = ["  {"]
+        if has:
+            g += ["\t" + x for x in ["\tvar s cb.%s" % tn] + ["\ts%s = %s" % (gp, go_lit(le[j], t)) for j, (t, _, gp) in enumerate(lv)]]
+            cc += ["    struct %s s; memset(&s, 0, sizeof s);" % tn] + \
+                  ["    s%s = %s;" % (cp, c_lit(le[j], t)) for j, (t, cp, _) in enumerate(lv)]
+        gargs = (["s"] if has else []) + ["%d" % i] + [go_lit(v, t) for v, t in zip(sent, r["kinds"])]
+        cargs = (["s"] if has else []) + ["%d" % i] + [c_lit(v, t) for v, t in zip(sent, r["kinds"])]
+        g += ["\t\tr := cb.Va%d(%s)" % (k, ", ".join(gargs)), '\t\tprintln("C09 V%d vres", uint64(r))' % i, "\t}"]
+        cc += ["    int64_t r = va%d(%s);" % (k, ", ".join(cargs)),
+               '    fprintf(stderr, "C09 V%d vres %%llu\\n", (unsigned long long)r); fflush(stderr);' % i, "  }"]
+        gofn += g
+        cfn += cc
+    out["c"] = ["static const char *c09_vkinds[] = { %s };" % ", ".join(kinds_tbl),
+                "static const int64_t c09_vres[] = { %s };" % ", ".join(res_tbl)] + out["c"]
+    out["go"] = gofn + ["}"]
+    out["cmain"] = cfn + ["}"]
+    return out
+
+
+def eval_variadic(chk, b, vfail, opt, only):
+    """vfail: {case index: mismatches}.  A failing case is charged to the shortest failing prefix of its variadic
+    argument list (same fixed prefix); when, in one prefix class, exactly the one-argument calls are the roots - every
+    kind, every shape - the class is reported once ('no variadic argument arrives')."""
+    vc = b.variadic
+    index = {(r["psig"], tuple(r["kinds"])): i for i, r in enumerate(vc)}
+    roots = {}
+    for i in sorted(vfail):
+        r = vc[i]
+        for n in range(len(r["kinds"]) + 1):
+            j = index.get((r["psig"], tuple(r["kinds"][:n])))
+            if j is not None and j in vfail:
+                roots.setdefault(j, []).append(i)
+                break
+    groups = {}
+    for cl in ("none", "small", "mid", "big"):
+        ones = set(i for i, r in enumerate(vc) if r["class"] == cl and len(r["kinds"]) == 1)
+        mine = set(j for j in roots if vc[j]["class"] == cl)
+        if mine and mine == ones:
+            groups["variadic:%s:any" % cl] = sorted(mine)
+        else:
+            for j in sorted(mine):
+                groups["variadic:%s:%s:%s" % (cl, vc[j]["psig"], ",".join(vc[j]["kinds"]) or "-")] = [j]
+    for key, js in groups.items():
+        j = js[0]
+        r = vc[j]
+        folded = sorted(set(i for x in js for i in roots[x]))
+        what = "; ".join("%s: passed 0x%x, callee read %s" % (n, w, ("0x%x" % h) if isinstance(h, int) else h)
+                         if si >= 0 else "%s: expected %s, got %s" % (n, w, h) for (k2, si, n, w, h) in vfail[j][:5])
+        chk.reject(key + (":" + only if only else ""),
+                   "variadic C call f(%s n, ...) with variadic arguments (%s) at %s: %s; %d of %d calls of prefix class %s fail "
+                   "the same way or extend a failing call. SysVVariadic: caller puts the arguments at %s, va_arg reads %s" % (
+                       (r["psig"] + " s,") if r["prefix"]["shape"] else "", ",".join(r["kinds"]) or "none", opt, what,
+                       len(folded), sum(1 for x in vc if x["class"] == r["class"]), r["class"], r["locs"], r["reads"]),
+                   {"prefix": r["psig"], "class": r["class"], "kinds": r["kinds"], "opt": opt, "spec": r,
+                    "mismatches": [{"line": k2[1], "slot": n, "passed": w, "read": h} for (k2, si, n, w, h) in vfail[j]],
+                    "failing_calls": [vname(vc[i]) for i in folded][:60], "bundle": b.idx,
+                    "files": Bundle(0, [], variadic=[r], negctl=False).files})
+    return groups
+
+
+# --------------------------------------------------------------------------- narrow integers behind an aggregate (SysVNarrow.tla)
+
+NWT = {"i8": ("int8_t", "int8"), "i16": ("int16_t", "int16"), "u8": ("uint8_t", "uint8"), "u16": ("uint16_t", "uint16")}
+
+
+def run_narrow(chk):
+    rd = chk.rd.path
+    res = C.tlc(SPEC, "SysVNarrow", "narrow.cfg", rd, timeout=600, workers=2)
+    if not res.ok:
+        raise C.Undecided("SysVNarrow: the extension law fails on the spec's own values: %s" % res.violation)
+    chk.add_tlc(res, "SysVNarrow")
+    seen = {}
+    for r in res.printed:
+        r["psig"] = shape_sig(r["prefix"])
+        r["prefix"]["sig"] = r["psig"]
+        seen[(r["psig"], r["form"], r["vset"])] = r
+    out = sorted(seen.values(), key=lambda r: (len(r["prefix"]["cv"]), r["prefix"]["cv"], r["psig"], r["form"], r["vset"]))
+    if not out:
+        raise C.Undecided("SysVNarrow printed nothing")
+    return out
+
+
+def nname(r):
+    return "f(%s) value set %d" % (", ".join(r["psig"] if p == "S" else "int64" if p == "pad" else NWT[p][1] for p in r["params"]), r["vset"])
+
+
+def gen_narrow(ncases, expect):
+    """one C function per (aggregate, form), compiled with $C09_NFLAGS (-O2: an optimising callee relies on the caller's
+    extension); the arguments are truncations of run-time values.  line: 'C09 N<i> nw <every parameter, widened to 64 bits>'"""
+    out = {"go": [], "cmain": [], "files": {}}
+    if not ncases:
+        return out
+    decls, bodies, gob = [], [], []
+    fidx, pidx = {}, {}
+    gofn = ["var nwzero int32", "", "//go:noinline", "func nwv(v int32) int32 { return v + nwzero }", "", "func nwCases() {"]
+    cfn = ["static volatile int c09n_zero;", "static int c09n_v(int v) { return v + c09n_zero; }", "static void c09_ncases(void) {"]
+    for i, r in enumerate(ncases):
+        sh = r["prefix"]
+        has = bool(sh["shape"])
+        lv = leaves(sh) if has else []
+        if has and r["psig"] not in pidx:
+            pidx[r["psig"]] = "NP%d" % len(pidx)
+            decls.append(c_struct_decl(pidx[r["psig"]], sh))
+            gob.append(go_struct_decl(pidx[r["psig"]], sh))
+        tn = pidx.get(r["psig"])
+        names = ["p%d" % k for k in range(len(r["params"]))]
+        if (r["psig"], r["form"]) not in fidx:
+            k = fidx[(r["psig"], r["form"])] = len(fidx)
+            cps = ["struct %s %s" % (tn, n) if p == "S" else "int64_t %s" % n if p == "pad" else "%s %s" % (NWT[p][0], n)
+                   for p, n in zip(r["params"], names)] + ["int32_t id"]
+            gps = ["%s %s" % (n, tn) if p == "S" else "%s int64" % n if p == "pad" else "%s %s" % (n, NWT[p][1])
+                   for p, n in zip(r["params"], names)] + ["id int32"]
+            decls.append("void nw%d(%s);" % (k, ", ".join(cps)))
+            ex = []
+            for p, n in zip(r["params"], names):
+                if p == "S":
+                    ex += [c_bits(n + cp, t) for t, cp, _ in lv]
+                else:
+                    ex.append("(unsigned long long)(long long)%s" % n)
+            bodies += ["void nw%d(%s) {" % (k, ", ".join(cps)),
+                       '  fprintf(stdout, "C09 N%%d nw%s\\n", (int)id, %s); fflush(stdout);' % (" %llu" * len(ex), ", ".join(ex)), "}"]
+            gob += ["//go:linkname Nw%d C.nw%d" % (k, k), "func Nw%d(%s)" % (k, ", ".join(gps)), ""]
+        k = fidx[(r["psig"], r["form"])]
+        tag = "narrow:%s:%s:%d" % (r["psig"], r["form"], r["vset"])
+        le = [leaf_value(tag, "l%d" % j, t) for j, (t, _, _) in enumerate(lv)]
+        pad = leaf_value(tag, "pad", "i64")
+        slots, gargs, cargs = [], [], []
+        for j, p in enumerate(r["params"]):
+            if p == "S":
+                slots += [("s%s:%s" % (lv[m][1], lv[m][0]), le[m]) for m in range(len(lv))]
+                gargs.append("s")
+                cargs.append("s")
+            elif p == "pad":
+                slots.append(("p%d:int64" % j, pad))
+                gargs.append(go_lit(pad, "i64"))
+                cargs.append(c_lit(pad, "i64"))
+            else:
+                # SysVNarrow.SeenOf: the truncated value, extended by the caller
+                slots.append(("p%d:%s(0x%x)" % (j, NWT[p][1], r["wide"][j]), r["seen"][j] & ((1 << 64) - 1)))
+                gargs.append("%s(nwv(%d))" % (NWT[p][1], r["wide"][j]))
+                cargs.append("(%s)c09n_v(%d)" % (NWT[p][0], r["wide"][j]))
+        expect[("N%d" % i, "nw")] = slots
+        g, cc = ["\t{"], ["  {"]
+        if has:
+            g += ["\t\tvar s cn.%s" % tn] + ["\t\ts%s = %s" % (gp, go_lit(le[m], t)) for m, (t, _, gp) in enumerate(lv)]
+            cc += ["    struct %s s; memset(&s, 0, sizeof s);" % tn] + ["    s%s = %s;" % (cp, c_lit(le[m], t)) for m, (t, cp, _) in enumerate(lv)]
+        g += ["\t\tcn.Nw%d(%s, %d)" % (k, ", ".join(gargs), i), "\t}"]
+        cc += ["    nw%d(%s, %d);" % (k, ", ".join(cargs), i), "  }"]
+        gofn += g
+        cfn += cc
+    out["go"] = gofn + ["}"]
+    out["cmain"] = decls + cfn + ["}"]
+    out["files"] = {
+        "cn/wrap/narrow.c": C_PRELUDE + "\n".join(decls + bodies) + "\n",
+        "cn/cn.go": "\n".join(["package cn", "", 'import "unsafe"', "", "const (", '\tLLGoFiles   = "$C09_NFLAGS: wrap/narrow.c"',
+                               '\tLLGoPackage = "link"', ")", "", "var _ unsafe.Pointer", ""] + gob) + "\n"}
+    return out
+
+
+def eval_narrow(chk, b, nfail, opt, only):
+    """one key per classification of the aggregate in front of the narrow parameters"""
+    groups = {}
+    for i in sorted(nfail):
+        r = b.narrow[i]
+        groups.setdefault("narrow:%s" % ("/".join(r["prefix"]["cv"]) or "none"), []).append(i)
+    for key, idxs in groups.items():
+        r = b.narrow[idxs[0]]
+        det = nfail[idxs[0]]
+        what = "; ".join("%s: passed 0x%x, callee saw %s" % (n, w, ("0x%x" % h) if isinstance(h, int) else h)
+                         if si >= 0 else "%s: expected %s, got %s" % (n, w, h) for (k2, si, n, w, h) in det[:5])
+        chk.reject(key + (":" + only if only else ""),
+                   "C function %s at %s, C side compiled -O2, arguments truncated from run-time values: %s. %d calls behind an aggregate "
+                   "of class %s fail (aggregates: %s). SysVNarrow: the caller extends int8/int16/uint8/uint16 arguments; parameters at %s" % (
+                       nname(r), opt, what, len(idxs), r["prefix"]["cv"], sorted(set(b.narrow[i]["psig"] for i in idxs)), r["locs"]),
+                   {"aggregate": r["psig"], "form": r["form"], "params": r["params"], "wide_sources": r["wide"], "expected": r["seen"],
+                    "opt": opt, "c_flags": "-O2", "mismatches": [{"slot": n, "passed": w, "seen": h} for (k2, si, n, w, h) in det],
+                    "failing_calls": [nname(b.narrow[i]) for i in idxs][:40], "bundle": b.idx,
+                    "files": Bundle(0, [], narrow=[r], negctl=False).files})
+    return groups
+
+
+# --------------------------------------------------------------------------- cgo byte buffers (CBuf.tla)
+
+TOKB = {0: 0x00, 1: 0x61, 2: 0x80, 3: 0xff, 4: 0x4a, 5: 0x47}
+OPC = {"CString": 1, "CBytes": 2, "MutC": 3, "MutGsrc": 4, "GoString": 5, "GoStringN": 6, "GoBytes": 7, "MutGback": 8}
+BKIND = {"none": 0, "string": 1, "bytes": 2}
+
+CBUF_GO = r"""package cg
+
+/*
+#include <stdlib.h>
+static void c09_poke(void *p, int i, int v) { ((unsigned char *)p)[i] = (unsigned char)v; }
+static int c09_peek(void *p, int i) { return ((unsigned char *)p)[i]; }
+static int c09_from(void) { const char *e = getenv("C09_FROM"); return e ? atoi(e) : 0; }
+*/
+import "C"
+
+import "unsafe"
+
+// one script: len(s), s..., number of operations, then (op, operand, byte) triples
+const prog = "@PROG@"
+
+func num(out []byte, v int) []byte {
+	var d [20]byte
+	n := len(d)
+	for {
+		n--
+		d[n] = byte('0' + v%10)
+		v /= 10
+		if v == 0 {
+			break
+		}
+	}
+	out = append(out, ' ')
+	return append(out, d[n:]...)
+}
+
+func head(out []byte, idx int, kind string) []byte {
+	out = append(out, "C09B"...)
+	out = num(out, idx)
+	out = append(out, ' ')
+	return append(out, kind...)
+}
+
+func runOne(idx, pos int) {
+	defer func() {
+		if r := recover(); r != nil {
+			println("C09B", idx, "panic")
+		}
+	}()
+	n := int(prog[pos])
+	pos++
+	src := make([]byte, n)
+	for k := 0; k < n; k++ {
+		src[k] = prog[pos+k]
+	}
+	pos += n
+	nops := int(prog[pos])
+	pos++
+	var p unsafe.Pointer
+	blen, kind := 0, 0
+	var bs string
+	var bb []byte
+	for k := 0; k < nops; k++ {
+		op, a, v := prog[pos], int(prog[pos+1]), prog[pos+2]
+		pos += 3
+		switch op {
+		case 1:
+			p, blen = unsafe.Pointer(C.CString(string(src))), n+1
+		case 2:
+			p, blen = C.CBytes(src), n
+		case 3:
+			C.c09_poke(p, C.int(a), C.int(v))
+		case 4:
+			src[a] = v
+		case 5:
+			bs, kind = C.GoString((*C.char)(p)), 1
+		case 6:
+			bs, kind = C.GoStringN((*C.char)(p), C.int(a)), 1
+		case 7:
+			bb, kind = C.GoBytes(p, C.int(a)), 2
+		case 8:
+			bb[a] = v
+		}
+	}
+	out := make([]byte, 0, 128)
+	out = head(out, idx, "src")
+	for k := 0; k < len(src); k++ {
+		out = num(out, int(src[k]))
+	}
+	out = append(out, '\n')
+	out = head(out, idx, "buf")
+	for k := 0; k < blen; k++ {
+		out = num(out, int(C.c09_peek(p, C.int(k))))
+	}
+	out = append(out, '\n')
+	out = head(out, idx, "back")
+	out = num(out, kind)
+	if kind == 1 {
+		out = num(out, len(bs))
+		for k := 0; k < len(bs); k++ {
+			out = num(out, int(bs[k]))
+		}
+	} else {
+		out = num(out, len(bb))
+		for k := 0; k < len(bb); k++ {
+			out = num(out, int(bb[k]))
+		}
+	}
+	out = append(out, '\n')
+	print(string(out))
+}
+
+func Run() {
+	from := int(C.c09_from())
+	pos := 0
+	for idx := 0; pos < len(prog); idx++ {
+		n := int(prog[pos])
+		nops := int(prog[pos+1+n])
+		if idx >= from {
+			runOne(idx, pos)
+		}
+		pos += 2 + n + 3*nops
+	}
+	println("C09B done")
+}
+"""
+CBUF_MAIN = 'package main\n\nimport "vmod/cg"\n\nfunc main() { cg.Run() }\n'
+BLINE = re.compile(r"^C09B (\d+) (\w+)((?: \d+)*)\s*$")
+
+
+def run_cbuf_tlc(chk, thorough):
+    rd = chk.rd.path
+    cfg = os.path.join(rd, "cbuf.cfg")
+    consts = {"Tokens": "{0, 1, 3}", "MaxLen": 3, "MaxSteps": 4, "CPoke": "{0, 4}", "GPoke": 5, "NSet": '"ends"'}
+    if thorough:
+        consts.update({"Tokens": "{0, 1, 2, 3}", "NSet": '"all"'})
+    C.write_cfg(cfg, constants=consts, invariants=["TypeOK", "Emit"], properties=["SnapToGo", "SnapToC", "Conv"])
+    res = C.tlc(SPEC, "CBuf", cfg, rd, timeout=1200, parse_json=False, workers=3)
+    if not res.ok:
+        raise C.Undecided("CBuf: the snapshot laws fail on the spec's own machine: %s" % res.violation)
+    chk.add_tlc(res, "CBuf")
+    scripts = {}
+    for r in C.tlc_printed_iter(res):
+        ops = tuple((o["op"], o["i"], o["v"]) for o in r["script"])
+        r["ops"] = ops
+        scripts[(tuple(r["s"]), ops)] = r
+    out = sorted(scripts.values(), key=lambda r: (len(r["ops"]), len(r["s"]), r["s"], r["ops"]))
+    if not out:
+        raise C.Undecided("CBuf printed no scripts")
+    return out
+
+
+def cbuf_name(r):
+    def one(o):
+        op, i, v = o
+        if op == "MutC":
+            return "MutC[%d]=0x%02x" % (i - 1, TOKB[v])
+        if op in ("MutGsrc", "MutGback"):
+            return "%s[%d]=0x%02x" % (op, i - 1, TOKB[v])
+        if op in ("GoStringN", "GoBytes"):
+            return "%s(%d)" % (op, i)
+        return op
+    return "[%s] %s" % (" ".join("%02x" % TOKB[t] for t in r["s"]), "; ".join(one(o) for o in r["ops"]))
+
+
+def cbuf_files(scripts):
+    enc = bytearray()
+    for r in scripts:
+        enc.append(len(r["s"]))
+        enc += bytes(TOKB[t] for t in r["s"])
+        enc.append(len(r["ops"]))
+        for op, i, v in r["ops"]:
+            # indices are 0-based in the program; GoStringN / GoBytes carry their length
+            a = i if op in ("GoStringN", "GoBytes") else max(i - 1, 0)
+            enc += bytes([OPC[op], a, TOKB[v]])
+    lit = "".join("\\x%02x" % x for x in enc)
+    return {"cg/cg.go": CBUF_GO.replace("@PROG@", lit), "main.go": CBUF_MAIN}
+
+
+def cbuf_expect(scripts):
+    exp = {}
+    for i, r in enumerate(scripts):
+        exp[(i, "src")] = [("src[%d]" % k, TOKB[t]) for k, t in enumerate(r["src"])]
+        exp[(i, "buf")] = [("buf[%d]" % k, TOKB[t]) for k, t in enumerate(r["buf"])]
+        exp[(i, "back")] = [("kind", BKIND[r["kind"]]), ("len", len(r["back"]))] + [("back[%d]" % k, TOKB[t]) for k, t in enumerate(r["back"])]
+    return exp
+
+
+def run_cbuf_exe(exe, nscripts, env=None, max_restarts=400):
+    """runs the interpreter, restarting behind a script that kills the process; returns (lines, crashed indices, done)"""
+    got, crashed = {}, []
+    start = 0
+    for _ in range(max_restarts):
+        e = dict(env or os.environ)
+        e["C09_FROM"] = str(start)
+        st, so, se = C.run_exe(exe, timeout=600, env=e)
+        last = start - 1
+        for line in (so + "\n" + se).splitlines():
+            m = BLINE.match(line.strip())
+            if m:
+                i = int(m.group(1))
+                got[(i, m.group(2))] = [int(x) for x in m.group(3).split()]
+                last = max(last, i)
+        if st == 0 and "C09B done" in se + so:
+            return got, crashed, True
+        crashed.append(last + 1)
+        start = last + 2
+        if start >= nscripts:
+            break
+    return got, crashed, start >= nscripts
+
+
+def eval_cbuf(chk, scripts, exp, got, opt="O0"):
+    """a failing script is charged to its shortest failing prefix (every prefix of a script is a script of its own): the last
+    action of that prefix is the culprit, the first wrong observation names the damaged value and the conversion that made it"""
+    bad = {}
+    for key, i, name, want, have in compare(exp, got):
+        bad.setdefault(key[0], []).append((key[1], i, name, want, have))
+    index = {(tuple(r["s"]), r["ops"]): i for i, r in enumerate(scripts)}
+    groups = {}
+    for i in sorted(bad):
+        r = scripts[i]
+        root = i
+        for n in range(1, len(r["ops"]) + 1):
+            j = index.get((tuple(r["s"]), r["ops"][:n]))
+            if j is not None and j in bad:
+                root = j
+                break
+        p = scripts[root]
+        det = bad[root]
+        culprit = p["ops"][-1][0]
+        if (root, "panic") in got or any(d[2] == "line" for d in det):
+            damaged, producer = "crash", culprit
+        else:
+            damaged = [k for k in ("src", "buf", "back") if any(d[0] == k for d in det)][0]
+            togo = [o[0] for o in p["ops"] if o[0] in ("GoString", "GoStringN", "GoBytes")]
+            producer = "Go" if damaged == "src" else p["ops"][0][0] if damaged == "buf" else (togo[0] if togo else "none")
+        key = "cbuf:%s:%s:%s:%s" % ("empty" if not p["s"] else "nonempty", damaged, producer, culprit)
+        groups.setdefault(key, {"roots": [], "all": []})
+        if root not in groups[key]["roots"]:
+            groups[key]["roots"].append(root)
+        groups[key]["all"].append(i)
+    for key, g in groups.items():
+        root = g["roots"][0]
+        p = scripts[root]
+        det = bad[root]
+        what = "; ".join(("%s %s: expected 0x%x, observed %s" % (k, n, w, ("0x%x" % h) if isinstance(h, int) else h)) if si >= 0
+                         else "%s: %s expected %s, got %s%s" % (k, n, w, h, " (the script panicked)" if (root, "panic") in got else "")
+                         for (k, si, n, w, h) in det[:4])
+        chk.reject(key, "cgo buffer script %s at %s: %s. CBuf: src=%s buf=%s back=%s %s. %d scripts fail with this script or an extension "
+                   "of one of %d minimal scripts of this kind" % (cbuf_name(p), opt, what, [TOKB[t] for t in p["src"]], [TOKB[t] for t in p["buf"]],
+                                                                  p["kind"], [TOKB[t] for t in p["back"]], len(g["all"]), len(g["roots"])),
+                   {"script": cbuf_name(p), "initial": [TOKB[t] for t in p["s"]], "ops": p["ops"], "opt": opt,
+                    "expected": {"src": [TOKB[t] for t in p["src"]], "buf": [TOKB[t] for t in p["buf"]], "kind": p["kind"],
+                                 "back": [TOKB[t] for t in p["back"]]},
+                    "observed": {k: got.get((root, k)) for k in ("src", "buf", "back", "panic")},
+                    "other_minimal_scripts": [cbuf_name(scripts[j]) for j in g["roots"][1:12]],
+                    "failing_scripts": len(g["all"]), "files": cbuf_files([p])})
+    return groups, len(bad)
+
+
 # --------------------------------------------------------------------------- run + compare
 
-LINE = re.compile(r"^C09 (S?\d+) (\w+)((?: \d+)*)\s*$")
+LINE = re.compile(r"^C09 ([SVN]?\d+) (\w+)((?: \d+)*)\s*$")
 
 
 def parse_lines(text, into, dup):
@@ -762,7 +1308,7 @@ def parse_lines(text, into, dup):
         if not m:
             continue
         cid = m.group(1)
-        key = (cid if cid.startswith("S") else int(cid), m.group(2))
+        key = (cid if cid[0] in "SVN" else int(cid), m.group(2))
         vals = [int(x) for x in m.group(3).split()]
         if key in into:
             dup.append(key)
